@@ -131,7 +131,7 @@ def work(task):
             # the executable reading of `requires` is a witness of satisfiability too (and does not depend on solver load)
             srch = out.get("search")
             if not (srch and srch.get("admissible", 0) > 0):
-                srch = replay.search(CONTRACTS[key], opts.get("seed", 0), 400)
+                srch = replay.search(CONTRACTS[key], opts.get("seed", 0), 3000)
             if srch and srch.get("admissible", 0) > 0:
                 for r in vac_open:
                     r["status"] = "discharged"
